@@ -20,6 +20,7 @@ type vhDualSpec struct {
 	name   string
 	policy v1.IPFamilyPolicy
 	c4, c6 bool // cluster IP families
+	req    []string // explicitly requested addresses
 }
 
 func vhIsV4(ip net.IP) bool { return ip.To4() != nil }
@@ -27,7 +28,8 @@ func vhIsV4(ip net.IP) bool { return ip.To4() != nil }
 // VerifControllerDual (C02 family clause, C03 stability, C07 at the family level): nsvc Services with a
 // symbolic IP family policy and cluster-IP families on one pool holding both families. layout 0: two
 // addresses per family; 1: one IPv4 address and two IPv6 addresses (IPv4 can run out). recorded 1: the
-// first Service starts with a recorded IPv4 address.
+// first Service starts with a recorded IPv4 address; 2: and (if dual-stack) requests that address plus a
+// specific IPv6 address.
 func VerifControllerDual(nsvc, layout, recorded int) {
 	c4 := "10.0.0.0/31"
 	if layout == 1 {
@@ -66,9 +68,14 @@ func VerifControllerDual(nsvc, layout, recorded int) {
 			svc.Spec.IPFamilies = append(svc.Spec.IPFamilies, v1.IPv6Protocol)
 		}
 		svc.Spec.ClusterIP = svc.Spec.ClusterIPs[0]
-		if recorded == 1 && i == 0 && s.c4 {
+		if recorded >= 1 && i == 0 && s.c4 {
 			svc.Status.LoadBalancer.Ingress = []v1.LoadBalancerIngress{{IP: "10.0.0.0"}}
 			svc.Annotations[AnnotationIPAllocateFromPool] = "p0"
+		}
+		if recorded == 2 && i == 0 && s.c4 && s.c6 {
+			// the user asks for the address held plus a specific address of the other family
+			svc.Annotations[AnnotationLoadBalancerIPs] = "10.0.0.0,fd00::1"
+			s.req = []string{"10.0.0.0", "fd00::1"}
 		}
 		specs = append(specs, s)
 		api.names = append(api.names, s.name)
@@ -112,6 +119,17 @@ func VerifControllerDual(nsvc, layout, recorded int) {
 			}
 		}
 		g := res[i]
+		if len(s.req) > 0 && len(ips) > 0 {
+			okReq := len(ips) == len(s.req)
+			for _, r := range s.req {
+				found := false
+				for _, ip := range ips {
+					found = found || ip.Equal(net.ParseIP(r))
+				}
+				okReq = okReq && found
+			}
+			vr.Assert(okReq, "a Service that requests specific addresses holds something else")
+		}
 		vr.Assert(g.n4 <= 1 && g.n6 <= 1, "more than one address of a family")
 		vr.Assert((g.n4 == 0 || s.c4) && (g.n6 == 0 || s.c6), "a Service holds an address of a family it has no cluster IP for")
 		if s.policy == v1.IPFamilyPolicyRequireDualStack || (s.policy == v1.IPFamilyPolicySingleStack) {
